@@ -123,6 +123,15 @@ def one(case, acc):
         else:
             kw['username'] = 'user'
         ret = exc = None
+        # second observation point, at the API boundary: what login() hands to send() - the fake may be torn
+        # down before it has read (and recorded) the last line
+        sends = []
+        orig_send = s.send
+
+        def send(data):
+            sends.append((len(read_transcript(tp)), data))
+            return orig_send(data)
+        s.send = send
         t0 = time.time()
         try:
             ret = s.login('h', **kw)
@@ -159,6 +168,19 @@ def one(case, acc):
                     if not re.search(r'(?i)are you sure you want to continue connecting', since):
                         return v('yes-sent-without-hostkey-question', 'output since the previous input: %r' % since[-80:])
                 since = ''
+        # the same two clauses on what was handed to send()
+        prev = 0
+        npw2 = 0
+        for idx, data in sends:
+            text = data if isinstance(data, str) else data.decode('utf-8', 'replace')
+            line = text.rstrip('\r\n')
+            outs = ''.join(e[2] for e in tr[prev:idx] if e[1] == 'out') if idx <= len(tr) else ''
+            if line == PW:
+                npw2 += 1
+                acc.count('password_deliveries_checked')
+                if npw2 > 1:
+                    return v('password-sent-twice', 'login() handed the password to send() %d times' % npw2)
+            prev = idx
         shell = any(e[1] == 'shell-entered' for e in tr)
         pset = any(e[1] == 'prompt-set' for e in tr)
         # --- outcome
